@@ -414,6 +414,29 @@ Section LexLaws.
   Qed.
 End LexLaws.
 
+(** [try_equal!] chains: the lexicographic product of lawful field orders is lawful *)
+Lemma try_equal_lexprod a k : try_equal_m (Some a) (Some k) = Some (lexprod a k).
+Proof. destruct a; reflexivity. Qed.
+
+Lemma lawful_pair {A B} (cA : A -> A -> comparison) (cB : B -> B -> comparison) :
+  lawful cA -> lawful cB -> lawful (pair_cmp cA cB).
+Proof.
+  intros HA HB. constructor.
+  - intros [a1 b1] [a2 b2]; unfold pair_cmp, lexprod; cbn [fst snd]. split; intro H.
+    + destruct (cA a1 a2) eqn:C; try discriminate.
+      apply (law_eq _ HA) in C. apply (law_eq _ HB) in H. now subst.
+    + inversion H; subst. rewrite (proj2 (law_eq _ HA a2 a2) eq_refl). now apply (law_eq _ HB).
+  - intros [a1 b1] [a2 b2]; unfold pair_cmp, lexprod; cbn [fst snd].
+    rewrite (law_opp _ HA a1 a2). destruct (cA a1 a2); cbn [CompOpp]; auto. apply (law_opp _ HB).
+  - intros [a1 b1] [a2 b2] [a3 b3]; unfold pair_cmp, lexprod; cbn [fst snd]. intros H1 H2.
+    destruct (cA a1 a2) eqn:C1; try discriminate.
+    + apply (law_eq _ HA) in C1. subst a2.
+      destruct (cA a1 a3) eqn:C2; try discriminate; [eapply (law_trans _ HB); eauto | reflexivity].
+    + destruct (cA a2 a3) eqn:C2; try discriminate.
+      * apply (law_eq _ HA) in C2. subst a3. now rewrite C1.
+      * now rewrite (law_trans _ HA a1 a2 a3 C1 C2).
+Qed.
+
 Lemma lawful_lexZ : lawful (lex Z.compare).
 Proof. apply lawful_lex. exact lawful_Zcompare. Qed.
 Lemma lawful_lexlexZ : lawful (lex (lex Z.compare)).
